@@ -221,8 +221,15 @@ def run(chk, repo):
            f"subseq = {unparse(sub[0].value) if sub else None}", key=addp.qual + '::subseq', fn=addp.qual)
     lp = repo.func(TBL + 'load_peptide')
     chk.uses(lp)
-    t = unparse(lp.node).replace('(start, end)', 'start, end')
-    ok = 'if seq != fields[0]:' in t and 'labels.add(fields[1])' in t and 'for start, end in self.index[seq]:' in t
+    # column use (AST, in load_peptide and the new helpers it calls): the sequence is compared with column 0 and a mismatch raises, the
+    # header added to the label set is column 1, and the blocks read are those of self.index[seq]
+    fns_ = sem.with_new_helpers(repo, lp)
+    cmp0 = any(isinstance(n, ast.If) and isinstance(n.test, ast.Compare) and len(n.test.ops) == 1 and isinstance(n.test.ops[0], ast.NotEq)
+               and {unparse(n.test.left), unparse(n.test.comparators[0])} == {'seq', 'fields[0]'} and any(isinstance(x, ast.Raise) for x in n.body)
+               for g_ in fns_ for n in ast.walk(g_.node))
+    add1 = any(isinstance(n, ast.Call) and call_name(n) == 'add' and len(n.args) == 1 and unparse(n.args[0]) == 'fields[1]' for g_ in fns_ for n in ast.walk(g_.node))
+    blocks = any(isinstance(n, (ast.For, ast.comprehension)) and unparse(n.iter) == 'self.index[seq]' for g_ in fns_ for n in ast.walk(g_.node))
+    ok = cmp0 and add1 and blocks
     chk.ob('C04.d', 'reader: sequence from column 0 (checked), header from column 1, over every index block', lp.where, ok,
            'load_peptide column usage altered', key=lp.qual + '::columns', fn=lp.qual)
     # index block bookkeeping in add_peptide
@@ -249,9 +256,19 @@ def run(chk, repo):
     chk.rule('C04.e', 'R-ONCE: merge-or-add; identity = sequence; FASTA from every index key', 4)
     wfa = repo.func(TBL + 'write_fasta')
     chk.uses(wfa)
-    t = unparse(wfa.node)
-    ok = 'for seq in self.index:' in t and 'peptide = self.load_peptide(seq)' in t and 'writer.write_record(peptide)' in t
-    chk.ob('C04.e', 'write_fasta emits one record per index key', wfa.where, ok, 'write_fasta loop altered', key=wfa.qual + '::per-key', fn=wfa.qual)
+    # E9: what write_fasta hands to write_record in one iteration: self.load_peptide(<a key of self.index>), whatever the loop is spelt like
+    from sa.peval import PEval as _PE4, show as _sh4
+    try:
+        wo = _PE4(split_unknown=True, record=('write_record',)).run(wfa.node, {})
+        recs = sorted({_sh4(c['args'][0]) for o in wo for c in o.calls if c['name'] == 'write_record' and c['args']})
+    except (ValueError, OverflowError):
+        recs = None
+    if recs is None:
+        chk.undecided('C04.e', 'write_fasta emits one record per index key', wfa.where, 'write_fasta cannot be evaluated', key=wfa.qual + '::per-key', fn=wfa.qual)
+    else:
+        ok = recs == ['self.load_peptide(<item of self.index>)'] and not any(isinstance(n, (ast.Break, ast.Continue)) for n in ast.walk(wfa.node))
+        chk.ob('C04.e', 'write_fasta emits one record per index key', wfa.where, ok, f"write_fasta writes {recs} (expected self.load_peptide(<every key of self.index>))",
+               key=wfa.qual + '::per-key', fn=wfa.qual)
     hs = repo.func('aa.AminoAcidSeqRecord:AminoAcidSeqRecord.__hash__')
     eq = repo.func('aa.AminoAcidSeqRecord:AminoAcidSeqRecord.__eq__')
     chk.uses(hs, eq)
